@@ -271,6 +271,7 @@ impl AssemblyCode {
         }
 
         loop {
+            #[cfg(cc6502_verif)] crate::verif_hooks::tick("assemble.optimize");
             // For each iteration of this loop, first must point to an Instruction
             // and second point to the next asm line
             let mut remove_both = false;
@@ -791,12 +792,14 @@ impl AssemblyCode {
         let mut nb_fixes = 0;
         debug!("Code: {:?}", self);
         while restart {
+            #[cfg(cc6502_verif)] crate::verif_hooks::tick("assemble.check_branches");
             // Check each branch instruction one after each other
             // Let's find the first one
             let mut position = 0;
             let mut i = self.code.iter();
             let mut repair = false;
             loop {
+                #[cfg(cc6502_verif)] crate::verif_hooks::tick("assemble.check_branches.scan");
                 let j = i.next();
                 if j.is_none() {
                     restart = false;
